@@ -28,6 +28,9 @@ pub struct ClusterSpec {
     pub cfg: CfgSpec,
     pub renew: u8,
     pub formation: Formation,
+    /// own incarnation each node starts with (a history of refuted suspicions); empty = all zero
+    #[serde(default)]
+    pub incarnations: Vec<u16>,
 }
 
 impl ClusterSpec {
@@ -45,17 +48,26 @@ pub fn form<E>(spec: &ClusterSpec, mut on_step: impl FnMut(&Sim, &StepInfo) -> R
     let mut sim = Sim::new(spec.codec, spec.seed ^ 0xC1A5_7E12, 1, spec.lat_max_us as u64);
     let n = spec.n as usize;
     let nseed = |i: usize| crate::engine::splitmix(spec.seed, i as u64 + 1);
+    let inc_of = |i: usize| spec.incarnations.get(i).copied().unwrap_or(0);
+    // a node whose incarnation is > 0 got there the only legitimate way: it refuted a suspicion earlier
+    fn raise(sim: &mut Sim, i: usize, inc: u16) {
+        if inc > 0 {
+            let me = sim.identity(i);
+            let _ = sim.call(i, Call::ApplyMany(vec![Member::new(me, inc - 1, State::Suspect)], false));
+        }
+    }
     match &spec.formation {
         Formation::Inject { offsets_ms } => {
             for i in 0..n {
                 sim.add_node(ClusterSpec::addr(i), 0, spec.renew, &spec.cfg, nseed(i), HandlerSpec::OFF);
+                raise(&mut sim, i, inc_of(i));
             }
             let mut order: Vec<(u64, usize)> = (0..n).map(|i| (offsets_ms.get(i).copied().unwrap_or(0) as u64 * MS, i)).collect();
             order.sort();
             let mut done = 0;
             for (t, i) in order {
                 sim.run_until(t, &mut on_step)?;
-                let others: Vec<Member<Id>> = (0..n).filter(|j| *j != i).map(|j| Member::new(Id::new(ClusterSpec::addr(j), 0), 0, State::Alive)).collect();
+                let others: Vec<Member<Id>> = (0..n).filter(|j| *j != i).map(|j| Member::new(Id::new(ClusterSpec::addr(j), 0), inc_of(j), State::Alive)).collect();
                 let info = sim.call(i, Call::ApplyMany(others, false));
                 on_step(&sim, &info)?;
                 done = t;
@@ -64,6 +76,7 @@ pub fn form<E>(spec: &ClusterSpec, mut on_step: impl FnMut(&Sim, &StepInfo) -> R
         }
         Formation::Join { joins } => {
             sim.add_node(ClusterSpec::addr(0), 0, spec.renew, &spec.cfg, nseed(0), HandlerSpec::OFF);
+            raise(&mut sim, 0, inc_of(0));
             let mut js: Vec<(u64, u16)> = joins.iter().take(n.saturating_sub(1)).map(|(t, s)| (*t as u64 * MS, *s)).collect();
             while js.len() < n.saturating_sub(1) {
                 js.push((js.last().map(|x| x.0).unwrap_or(0) + 100 * MS, 0));
@@ -74,6 +87,7 @@ pub fn form<E>(spec: &ClusterSpec, mut on_step: impl FnMut(&Sim, &StepInfo) -> R
                 let i = k + 1;
                 sim.run_until(*t, &mut on_step)?;
                 let idx = sim.add_node(ClusterSpec::addr(i), 0, spec.renew, &spec.cfg, nseed(i), HandlerSpec::OFF);
+                raise(&mut sim, idx, inc_of(i));
                 let seed_member = ((*seed_raw as usize) * i) >> 16;
                 let to = sim.identity(seed_member);
                 let info = sim.call(idx, Call::Announce(to));
@@ -163,9 +177,10 @@ pub fn cluster_spec(p: &ClusterProfile) -> BoxedStrategy<ClusterSpec> {
         (pa, pad, pg),
         // probe_rtt / probe_period ratio 0.2..0.8, latency below rtt/4
         (200..800u32, 1..1000u32),
+        proptest::collection::vec(prop_oneof![4 => Just(0u16), 3 => 1..4u16, 1 => any::<u16>().prop_map(|x| x.min(u16::MAX - 8))], 24),
         (proptest::collection::vec((0..1500u32, any::<u16>()), 24), proptest::collection::vec(0..1000u32, 24), proptest::strategy::Union::new_weighted(vec![(jf.max(0), Just(true).boxed()), (inf.max(0), Just(false).boxed())].into_iter().filter(|x| x.0 > 0).collect::<Vec<_>>())),
     )
-        .prop_map(|((n, codec, seed, renew), (num_indirect, max_tx, max_packet, notify_down, s2d), (pa, pad, pg), (rtt_ratio, lat_frac), (joins, offsets, join))| {
+        .prop_map(|((n, codec, seed, renew), (num_indirect, max_tx, max_packet, notify_down, s2d), (pa, pad, pg), (rtt_ratio, lat_frac), incarnations, (joins, offsets, join))| {
             let period = 1000u32;
             let rtt = period * rtt_ratio / 1000;
             // latency strictly below rtt/4 (in us)
@@ -191,7 +206,7 @@ pub fn cluster_spec(p: &ClusterProfile) -> BoxedStrategy<ClusterSpec> {
             } else {
                 Formation::Inject { offsets_ms: offsets }
             };
-            ClusterSpec { n, codec, seed, lat_max_us, cfg, renew, formation }
+            ClusterSpec { n, codec, seed, lat_max_us, cfg, renew, formation, incarnations }
         })
         .boxed()
 }
